@@ -569,6 +569,57 @@ def clone (p : Parser) : Parser := p
 /-- `parser/where` without arguments -/
 def whereAt (p : Parser) : Nat × Nat := (p.line, p.column)
 
+/-- source-map fields of a tuple made by `janet_tuple_n` (-1 in C) -/
+def smNone : Nat := 0xFFFFFFFF
+
+/-- update the frame at index `i` from the top -/
+def modifyFrame (states : List Frame) (i : Nat) (f : Frame → Frame) : List Frame :=
+  match states, i with
+  | [], _ => []
+  | s :: rest, 0 => f s :: rest
+  | s :: rest, i + 1 => s :: modifyFrame rest i f
+
+/-- `parser/insert`.  `vstr` is `janet_to_string value` (only used inside string frames).  `Except.error` = panic message
+    (a pending token may already have been finished by then).  Which frame counts as the
+    root frame follows the current source (`Gen.insertRootTestByFrame`). -/
+def insert (scan : List B → Option String) (p : Parser) (v : Value) (vstr : List B) : Parser × Option String :=
+  let p1 : Parser × Option String :=
+    match p.states with
+    | top :: _ =>
+      if top.consumer == .tokenchar then
+        match checkDead p with
+        | some msg => (p, some msg)
+        | none => let q := consumeRaw scan p 32; ({ q with column := q.column - 1 }, none)
+      else (p, none)
+    | [] => (p, none)
+  match p1 with
+  | (p, some e) => (p, some e)
+  | (p, none) =>
+    let i := match p.states with
+      | top :: _ => if hasFlag top.flags PFLAG_COMMENT then 1 else 0
+      | [] => 0
+    let s := p.states.getD i default
+    if hasFlag s.flags PFLAG_CONTAINER then
+      let states := modifyFrame p.states i (fun f => { f with argn := f.argn + 1 })
+      let isRoot := if insertRootTestByFrame then i + 1 == p.states.length else p.states.length == 1
+      if isRoot then
+        ({ p with states := states, pending := p.pending + 1, args := Value.tuple false smNone smNone [v] :: p.args }, none)
+      else ({ p with states := states, args := v :: p.args }, none)
+    else if hasFlag s.flags (PFLAG_STRING ||| PFLAG_LONGSTRING) then ({ p with buf := p.buf ++ vstr }, none)
+    else (p, some "cannot insert value into parser")
+
+/-- `parser/where` with arguments: `Except.error` = panic message -/
+def setWhere (p : Parser) (line : Option Int) (col : Option Int) : Except String Parser :=
+  match line with
+  | some l =>
+    if l < 1 then .error s!"invalid line number {l}"
+    else
+      let p := { p with line := l.toNat }
+      match col with
+      | some c => if c < 0 then .error s!"invalid column number {c}" else .ok { p with column := c.toNat }
+      | none => .ok p
+  | none => .ok p
+
 /-- `parser_state_delimiters` -/
 def delimiters (p : Parser) : List B :=
   (p.states.reverse.map (fun s =>
